@@ -8,7 +8,7 @@ K = {0: 'null', 1: 'bool', 2: 'int', 3: 'float'}
 
 def build(repo):
     u = KaniUnit('filter_kernel', ['C11', 'C12'], 'grafeo-core', cargo_args=['--no-default-features'], copy_crates=['grafeo-common', 'grafeo-core'])
-    u.module = 'execution::operators::filter::verif_filter'
+    u.module = 'execution::operators'
     text = open(os.path.join(os.path.dirname(os.path.dirname(os.path.abspath(__file__))), 'kani', 'filter_kernel.rs')).read()
     ga, gl = [], []
     for op in ('Add', 'Sub', 'Mul', 'Div', 'Mod'):
@@ -36,8 +36,16 @@ def build(repo):
                 u.harness(n, 'filter::eval_binary_op::{%s}(%s,%s)::complementary' % (pname.replace('_', ','), K[a], K[b]), props=['C11', 'C12'], timeout=900)
     text = text.replace('//@GENERATED-CMP@', '\n    '.join(gc))
     text = text.replace('//@GENERATED-ARITH@', '\n    '.join(ga)).replace('//@GENERATED-LOGIC@', '\n    '.join(gl))
-    u.append(REL, text)
-    u.functions = [('ExpressionPredicate::{eval_binary_op, eval_arithmetic (+ the four closures), eval_modulo, eval_unary_op, values_equal, compare_values}', REL)]
+    import re
+    parts = re.split(r'(?m)^//@@FILE (\S+)\n', text)
+    for i in range(1, len(parts), 2):
+        u.append(parts[i], parts[i + 1])
+    for n in ('add_int_int', 'sub_int_int', 'mul_int_int', 'div_int_int', 'mod_int_int', 'div_float_float', 'mod_float_float', 'add_int_float'):
+        u.harness('push::project::verif_project::project_' + n, 'project::BinaryExpr::evaluate::%s::returns_never_panics' % n, props=['C12'], timeout=600)
+    for h in u.harnesses:
+        if not h['name'].startswith('push::'):
+            h['name'] = 'filter::verif_filter::' + h['name']
+    u.functions = [('BinaryExpr::evaluate, ConstantExpr::evaluate (push pipeline arithmetic)', 'crates/grafeo-core/src/execution/operators/push/project.rs'), ('ExpressionPredicate::{eval_binary_op, eval_arithmetic (+ the four closures), eval_modulo, eval_unary_op, values_equal, compare_values}', REL)]
     u.not_covered = ['LIMIT/SKIP/DISTINCT/UNION/COUNT identities (operators over dyn Operator + DataChunk + hash sets)', 'string / regex / IN / Pow operators, eval_function, eval_case, comprehensions',
                      'lexers, parsers, translators, binder, planner (str byte reasoning unsupported in Verus; Kani would be a tiny bounded check of 2000-line parsers)']
     u.trust('kani::stub regex::Regex::{new,is_match}', 'cuts the Regex arm out of reachability (kani-compiler 0.68 ICE on regex_automata); the regex operator is not under any obligation')
